@@ -537,8 +537,172 @@ def rule_flipped(chk, prog):
         raise AnalysisBroken("expected at least 3 readers of flippedRetrieval, found %d" % readers)
 
 
+class Tok:
+    """A number formatted by string_format(fmt, value): carries the symbolic value."""
+    def __init__(self, value):
+        self.value = value
+
+    def __repr__(self):
+        return "NUM(%r)" % (self.value,)
+
+
+def reader_tables(prog):
+    """char -> enumerator tables of the TGLF reader's three switches (gt, sd, st), taken from the syntax tree."""
+    fn = prog.fn("dialect::buildGraphFromTglf", sig="basic_istream")
+    tables = {}
+    for n in fn.nodes():
+        if n.get("k") != "SwitchStmt":
+            continue
+        body = n.get("body")
+        for c in walk(body):
+            if c.get("k") != "CaseStmt" or "val" not in c:
+                continue
+            sub = c.get("sub")
+            while sub is not None and sub.get("k") in ("CaseStmt", "DefaultStmt"):
+                sub = sub.get("sub")
+            st = strip(sub) if sub is not None else None
+            if st is not None and st.get("k") == "BinaryOperator" and st.get("op") == "=":
+                rhs = strip_casts(st["ch"][1])
+                if rhs is not None and rhs.get("rk") == "EnumConstant":
+                    tables.setdefault(norm(st["ch"][0]), {})[chr(int(c["val"]))] = int(rhs["ev"])
+    for k in ("gt", "sd", "st"):
+        if k not in tables:
+            raise AnalysisBroken("TGLF reader table for `%s` not found in buildGraphFromTglf" % k)
+    return tables
+
+
+def rule_tglf(chk, prog):
+    r = chk.rule("TGLF-ROUNDTRIP", "SepPair::writeTglf interpreted over the abstract domain (gap types 2x2, sep types 3x3, gap sign classes "
+                 "{+,-,0}^2, symbolic magnitudes and extra boundary gap) yields lines `src tgt <B|C> <dir> <rel> <gap>`; every emitted letter "
+                 "is a case of the reader's switches (taken from buildGraphFromTglf), and feeding the lines through the reader's tables and "
+                 "SepPair::addSep reproduces the pair: same gap/sep types, gaps equal up to the extra boundary gap folded into BDRY gaps "
+                 "with the gap's own sign", floor=1)
+    GT = enum_vals(prog, "dialect::GapType")
+    ST = enum_vals(prog, "dialect::SepType")
+    wr = prog.fn("dialect::SepPair::writeTglf")
+    add = prog.fn("dialect::SepPair::addSep")
+    tables = reader_tables(prog)
+    E = Poly.var("E")
+    G = {0: Poly.var("Gx"), 1: Poly.var("Gy")}
+    hooks = {"dialect::string_format*": None, "dialect::SepMatrix::getExtraBdryGap": lambda it, n, env: E}
+
+    def h_fmt(it, n, env):
+        a = n.get("ch", [])[1:]
+        if len(a) >= 2:
+            v = it.ev(a[1], env)
+            if isinstance(v, (int, Fraction, Poly)) and not isinstance(v, bool) and not isinstance(it.ev(a[0], env), Tok):
+                f0 = it.ev(a[0], env)
+                if isinstance(f0, str) and "%%" in f0:
+                    return "FMT"
+                return Tok(v)
+        return "FMT"
+    hooks["dialect::string_format*"] = h_fmt
+    n_cases = n_lines = 0
+    bad = None
+    sample = None
+    for xgt in GT.values():
+        for ygt in GT.values():
+            for xst in ST.values():
+                for yst in ST.values():
+                    if xst == ST["NONE"] and yst == ST["NONE"]:
+                        continue
+                    for sx in (1, -1, 0):
+                        for sy in (1, -1, 0):
+                            xg = sx * G[0] if sx else Fraction(0)
+                            yg = sy * G[1] if sy else Fraction(0)
+                            pair = sym_pair(xgt, ygt, xst, yst, xg, yg)
+
+                            def run(o, pair=pair):
+                                it = Interp(prog, o, hooks=hooks)
+                                it.positive = {"Gx", "Gy", "E"}
+                                from ..microai.interp import MapVal
+                                try:
+                                    return ("ret", it.call(wr, copy.deepcopy(pair), None, None, arg_values=[MapVal(), Box(Obj("dialect::SepMatrix", {}))]))
+                                except AssertFail as e:
+                                    return ("assert", str(e))
+                                except Thrown as e:
+                                    return ("throw", str(e))
+                            try:
+                                rows = enumerate_paths(run, limit=50)
+                            except Unsupported as e:
+                                raise AnalysisBroken("SepPair::writeTglf outside the interpreter subset: %s" % e)
+                            n_cases += 1
+                            if len(rows) != 1:
+                                bad = bad or "writer branches on something other than the abstract state: %d paths" % len(rows)
+                                continue
+                            out = rows[0][2]
+                            if out[0] == "throw":
+                                continue    # 'constrained to coincide': documented refusal
+                            if out[0] != "ret":
+                                bad = bad or "writer fails an assertion on state (%s,%s,%s,%s,%s,%s)" % (xgt, ygt, xst, yst, sx, sy)
+                                continue
+                            toks = out[1].tokens if hasattr(out[1], "tokens") else ([] if out[1] in ("", None) else [out[1]])
+                            # tokenise into lines of words
+                            lines, cur = [], []
+                            for t in toks:
+                                if isinstance(t, str):
+                                    parts = t.split("\n")
+                                    for i, part in enumerate(parts):
+                                        cur.extend(part.split())
+                                        if i < len(parts) - 1:
+                                            lines.append(cur)
+                                            cur = []
+                                else:
+                                    cur.append(t)
+                            if cur:
+                                lines.append(cur)
+                            back = sym_pair(GT["CENTRE"], GT["CENTRE"], ST["NONE"], ST["NONE"], Fraction(0), Fraction(0))
+                            for ln in lines:
+                                n_lines += 1
+                                if len(ln) != 6:
+                                    bad = bad or "malformed TGLF line %r" % (ln,)
+                                    continue
+                                i1, i2, gtc, dirc, rel, gap = ln
+                                if gtc not in tables["gt"] or dirc not in tables["sd"] or str(rel)[:1] not in tables["st"]:
+                                    bad = bad or "writer emits `%s %s %s`, which the reader's switches do not accept" % (gtc, dirc, rel)
+                                    continue
+                                gv = gap.value if isinstance(gap, Tok) else (Fraction(int(gap)) if str(gap).lstrip("-").isdigit() else None)
+                                if gv is None:
+                                    bad = bad or "gap field %r is not a formatted number" % (gap,)
+                                    continue
+                                rr = run1(prog, add, back, [tables["gt"][gtc], tables["sd"][dirc], tables["st"][str(rel)[:1]], gv])
+                                if len(rr) != 1 or rr[0][2][0] != "ret":
+                                    bad = bad or "reader-side addSep is not straight-line"
+                                    continue
+                                back = rr[0][2][2]
+                            # expected state after the round trip
+                            def exp_gap(gt, st, sgn, g):
+                                if st == ST["NONE"]:
+                                    return None
+                                base = sgn * g if sgn else Fraction(0)
+                                if gt == GT["BDRY"]:
+                                    return to_poly(base) + (E if sgn >= 0 else -E)
+                                return to_poly(base)
+                            got = state(back)
+                            for axis, (gt_, st_, sgn, gsym, gi, ti, si) in enumerate(((xgt, xst, sx, G[0], 4, 0, 2), (ygt, yst, sy, G[1], 5, 1, 3))):
+                                if st_ == ST["NONE"]:
+                                    # an unconstrained axis must stay unconstrained, unless the writer had to express an alignment-only pair
+                                    continue
+                                want_gap = exp_gap(gt_, st_, sgn, gsym)
+                                if got[si] != st_ or got[ti] != gt_:
+                                    bad = bad or "state (xgt=%s ygt=%s xst=%s yst=%s signs %+d %+d): axis %s reads back as gap type %s / sep type %s" % (
+                                        xgt, ygt, xst, yst, sx, sy, "xy"[axis], got[ti], got[si])
+                                elif got[gi] != want_gap:
+                                    bad = bad or "state (xgt=%s ygt=%s xst=%s yst=%s signs %+d %+d): %s-gap reads back as %r, expected %r" % (
+                                        xgt, ygt, xst, yst, sx, sy, "xy"[axis], got[gi], want_gap)
+                            if sample is None and lines:
+                                sample = {"state": [xgt, ygt, xst, yst, sx, sy], "lines": [[repr(x) for x in ln] for ln in lines]}
+    r.count(n_cases)
+    chk.extra["tglf_states"] = n_cases
+    chk.extra["tglf_lines"] = n_lines
+    if sample:
+        chk.sample(dict(rule="TGLF-ROUNDTRIP", **sample))
+    (r.bad if bad else r.ok)("SepPair::writeTglf -> reader -> addSep", wr.where(), bad or "%d abstract states, %d lines" % (n_cases, n_lines))
+
+
 def run(chk):
     prog = chk.load()
+    rule_tglf(chk, prog)
     extracted, TF, GT, ST = rule_transform(chk, prog)
     rule_group(chk, prog, extracted)
     rule_dir_commute(chk, prog, extracted, TF, GT, ST)
